@@ -139,7 +139,8 @@ def t_edit_update(E):
             forall_i(E, n, lambda i: E.eq(new.fields["inner"].at(i), UVal(ed(T.edit_tr, i), "Trace"))), also=["C35"])
     batch_key_discipline(E, k, lambda i: callee_key(E, new.fields["inner"].at(i), "gf_edit_tr", "Vmap.edit element"),
                          n, "Vmap.edit_update")
-    E.prove("C05.Vmap.edit_update.args", E.eq(E.method(new, "get_args"), new_args))
+    # (C11: the trace of the N independent calls on the NEW argument slices records those arguments)
+    E.prove("C05.Vmap.edit_update.args", E.eq(E.method(new, "get_args"), new_args), also=["C11"])
     spec_w = E.I.make_sum(Stacked(n, lambda i: SReal(ed(T.edit_w, i))))
     E.prove("C05.Vmap.edit_update.weight_is_sum_of_element_weights", E.eq(w, spec_w))
     E.prove("C01.Vmap.edit_update.wf", wf(E, vm, new))
